@@ -36,18 +36,28 @@ func driveSource(src tokenSource, budget int) (class string, toks []string, err 
 			err = fmt.Errorf("%v", r)
 		}
 	}()
+	// the tokens are kept as they were handed out and only looked at when the run is over, as a consumer
+	// collecting them would: a byte-string token must not be a view of a buffer the decoder reuses
 	var slot tok.Token
+	var kept []tok.Token
+	render := func() []string {
+		out := make([]string, len(kept))
+		for i, t := range kept {
+			out[i] = printTokenProjected(t)
+		}
+		return out
+	}
 	for i := 0; i < budget; i++ {
 		done, e := src.Step(&slot)
 		if e != nil {
-			return "err", toks, e
+			return "err", render(), e
 		}
-		toks = append(toks, printTokenProjected(slot))
+		kept = append(kept, slot)
 		if done {
-			return "ok", toks, nil
+			return "ok", render(), nil
 		}
 	}
-	return "hang", toks, nil
+	return "hang", render(), nil
 }
 
 func runCborDec(payload string) string {
